@@ -208,6 +208,32 @@ func runC15Enum(c *sim.Ctx, u int, chunk int) {
 					c.Fail("panic", "panic", fmt.Sprintf("page size %d: header byte %d := %d (%s, %s): panic %v", u, off, v, why, when, p), detail)
 					continue
 				}
+				if class == hdrReject && when != "at-open" {
+					// several accesses inside ONE read transaction (explicit RLock ... RUnlock):
+					// the refusal must hold for every one of them, not only for the first
+					low := d.VerifLow()
+					if err := low.RLock(); err == nil {
+						okAfterRefusal := 0
+						var seq []string
+						for i := 0; i < 3; i++ {
+							op := ops.Op{Kind: "tables"}
+							if i > 0 && len(tables) > 0 && !tables[0].WithoutRowid {
+								op = ops.Op{Kind: "tscan", Table: tables[0].Name}
+							}
+							rr := ops.Run(d, op, nil)
+							seq = append(seq, fmt.Sprintf("%s:%v", op.Kind, rr.Err))
+							if rr.Panic == nil && rr.Err == nil {
+								okAfterRefusal++
+							}
+						}
+						low.RUnlock()
+						c.Eval(1)
+						if okAfterRefusal > 0 {
+							c.Fail("invalid-header-read", fmt.Sprintf("accepted:%s:%s:later-access-under-one-lock", why, when), fmt.Sprintf("page size %d: header byte %d := %d (%s) must be refused, but inside one RLock..RUnlock bracket %s: %v", u, off, v, why, when, seq), detail)
+						}
+						c.Probe("refusal-repeated-under-one-lock")
+					}
+				}
 				switch class {
 				case hdrReject:
 					if r.errs != r.n || r.calls != 0 {
